@@ -13,7 +13,7 @@ static const int CODES[11] = { CAT_RETURN_STATE_NEXT, CAT_RETURN_STATE_DATA_NEXT
                                CAT_RETURN_STATE_HOLD_EXIT_OK, CAT_RETURN_STATE_HOLD_EXIT_ERROR, CAT_RETURN_STATE_PRINT_CMD_LIST_OK, 99, -7 };
 #define MAXS 48
 static int script[MAXS], slen;
-static int kind, fsm, nvars, rewrite, hold_status; static bool with_desc, crlf;
+static int kind, fsm, nvars, rewrite, hold_status; static bool with_desc, crlf, tight;
 static int vr_fail, vw_fail, vr_calls, vw_calls;
 static int ninv; static char fresh0[256]; static bool have_fresh; static bool hold_pending;
 static char descr[600];
@@ -91,7 +91,17 @@ static void run_cell(void)
         for (int j = 0; j < nvars; j++) { v[j].type = CAT_VAR_UINT_DEC; v[j].name = j ? "Y" : "X"; uint8_t *d = w_vdata(&v[j], 1); *d = (uint8_t)(7 + j); v[j].read = hv_read; v[j].write = hv_write; }
         arr[1].name = xstr("+O"); arr[1].run = h_run;
         bool shared = chance(50);
-        w_buffers(shared ? 400 + rn(2) : 200, shared, 200);
+        size_t cap = 200;
+        if (tight) {      /* the smallest capacity that still holds every text of this cell: each response line and each list line fits, with 0..2 bytes to spare */
+                char t[300]; size_t need = 8, longest = 0; int n;
+                W.capA = 4096;
+                if ((n = ref_fmt_test(c, crlf ? "\r\n" : "\n", t, sizeof t)) > 0 && (size_t)n > need) need = (size_t)n;
+                if ((n = ref_fmt_read(c, t, sizeof t)) > 0 && (size_t)n > need) need = (size_t)n;
+                ref_fmt_list(t, sizeof t, crlf ? "\r\n" : "\n", &longest); if (longest > need) need = longest;
+                if (need < 12) need = 12;                    /* room for the "~<k>" payloads */
+                cap = need + 1 + rn(3);
+        }
+        w_buffers(shared ? cap * 2 + rn(2) : cap, shared, cap);
         w_init((int)rn(2));
         POLICY = policy; VPOLICY = vpolicy; ON_UNIT = on_unit;
         ninv = 0; have_fresh = false; hold_pending = false; vr_calls = vw_calls = 0; ngot = nwant = 0;
@@ -163,7 +173,7 @@ static void run_cell(void)
         nontrivial(h);
         DSET("code_sequences", hash_bytes(script, sizeof(int) * (size_t)slen, (uint64_t)slen));
         DSET("cells", (uint64_t)(kind * 1000 + fsm * 500 + nvars * 100 + rewrite * 10));
-        CNT("sequences"); CNTN("handler_invocations_checked", ninv); if (list) CNT("command_lists");
+        CNT("sequences"); CNTN("handler_invocations_checked", ninv); if (list) CNT("command_lists"); if (tight) CNT("sequences_at_minimal_capacity"); if (tight && list) CNT("command_lists_at_minimal_capacity");
         if (final && strcmp(final, "ERROR") == 0) CNT("final_error"); else CNT("final_ok");
         if (sample_wanted()) { char sb[200]; size_t so = 0; for (int q = 0; q < slen && so < 180; q++) so += (size_t)snprintf(sb + so, sizeof sb - so, "%d,", script[q]); sb[so] = 0;
                 sample_printf("%s handler on %s FSM, %d var(s), codes [%s] -> %d invocation(s), %d unit(s), final %s", kn[kind], fsm ? "event" : "command", nvars, sb, ninv, ngot, fsm ? "(none: event)" : final); }
@@ -197,11 +207,11 @@ void chk_run_case(uint64_t seed, long c, bool is_sweep)
                 long cell = c / 631; decode_seq(c % 631);
                 int kf = (int)(cell % 6); kind = CELL_KIND[kf]; fsm = CELL_FSM[kf]; cell /= 6;
                 nvars = (int)(cell % 2); rewrite = (int)(cell / 2);
-                with_desc = (c & 1); crlf = (c & 2) != 0; hold_status = (int)((c >> 2) & 1);
+                with_desc = (c & 1); crlf = (c & 2) != 0; hold_status = (int)((c >> 2) & 1); tight = ((c >> 3) & 3) == 0;
                 sch_eager(&RS); sch_eager(&WS);
         } else {
                 int kf = (int)rn(6); kind = CELL_KIND[kf]; fsm = CELL_FSM[kf];
-                nvars = (int)rn(3); rewrite = (int)rn(3); with_desc = chance(40); crlf = chance(30); hold_status = (int)rn(2);
+                nvars = (int)rn(3); rewrite = (int)rn(3); with_desc = chance(40); crlf = chance(30); hold_status = (int)rn(2); tight = chance(35);
                 slen = chance(70) ? (int)rn(9) : (int)rn(MAXS);
                 for (int i = 0; i < slen; i++) script[i] = (i + 1 < slen || chance(50)) ? CODES[rn(2)] : CODES[2 + rn(9)];
                 if (chance(15) && slen) script[rn((unsigned)slen)] = CODES[2 + rn(9)];
